@@ -5,6 +5,8 @@ import Req.Client.AuthWire
 import Req.Client.Digest
 import Req.Client.DigestAuth
 import Req.Client.Rfc7616
+import Req.Client.DigestResend
+import Req.Client.AuthSet
 /-! Driver lanes of C20. -/
 namespace Req.Driver.L.C20
 open Req.Proto Req.Digest
@@ -270,6 +272,81 @@ def laneEffective : List String → String
     | _, _, _, _ => "bad-op"
   | _ => "bad-op"
 
+/-! ### round 5: uploads under a challenge, setter sequences -/
+
+def pairsOf : List Bytes → Option (List (Bytes × Bytes))
+  | [] => some []
+  | k :: v :: r => (pairsOf r).map ((k, v) :: ·)
+  | _ => none
+
+def filesOf : List Bytes → Option (List Req.DigestAuth.FilePart)
+  | [] => some []
+  | kind :: param :: name :: content :: r =>
+    let src : Option Req.DigestAuth.Source :=
+      if kind == [99] then some (.content content)       -- "c"
+      else if kind == [115] then some (.seekable content) -- "s"
+      else if kind == [111] then some (.oneShot content)  -- "o"
+      else none
+    match src, filesOf r with
+    | some src, some fs => some ({ param, filename := name, src } :: fs)
+    | _, _ => none
+  | _ => none
+
+def partStr (p : Req.DigestAuth.Part) : String :=
+  encodeHex p.name ++ "/" ++ encodeHex p.filename ++ "=" ++ encodeHex p.content
+
+/-- sorted, `;`-joined (`-` = no part) -/
+def partsStr (ps : List Req.DigestAuth.Part) : String :=
+  if ps.isEmpty then "-" else
+  ";".intercalate ((ps.map partStr).toArray.qsort (fun a b => a < b)).toList
+
+/-- `c20upload[2] status www user pass method uri streamed ordered form clientform files` →
+`first <parts> -> untouched | err <kind> | resend <parts>` -/
+def laneUploadWith (m : Req.DigestAuth.Mode) : List String → String
+  | [status, www, user, pass, method, uri, streamed, ordered, form, cform, files] =>
+    match status.toNat?, decodeList www, decodeHex user, decodeHex pass, decodeHex method, decodeHex uri,
+          (decodeList ordered).bind pairsOf, (decodeList form).bind pairsOf, (decodeList cform).bind pairsOf,
+          (decodeList files).bind filesOf with
+    | some status, some www, some user, some pass, some method, some uri, some ordered, some form, some cform,
+      some files =>
+      let u : Req.DigestAuth.Upload := { ordered, form, clientForm := cform, files, streamed := streamed == "1" }
+      let answer := if status != 401 then none else
+        some (Req.DigestAuth.createDigestAuth idH algOf www { user, pass, method, uri } (some (List.replicate 16 0)))
+      "first " ++ partsStr (Req.DigestAuth.firstParts u) ++ " -> " ++
+        (match Req.DigestAuth.handleUpload m answer u with
+         | .untouched => "untouched"
+         | .failed e => "err " ++ errName e
+         | .resend ps => "resend " ++ partsStr ps)
+    | _, _, _, _, _, _, _, _, _, _ => "bad-op"
+  | _ => "bad-op"
+
+def setOpsOf : List Bytes → Option (List Req.Auth.SetOp)
+  | [] => some []
+  | kind :: a :: b :: r =>
+    let op : Option Req.Auth.SetOp :=
+      if kind == [99, 98] then some (.clientBasic a b)        -- "cb"
+      else if kind == [99, 116] then some (.clientBearer a)   -- "ct"
+      else if kind == [114, 98] then some (.reqBasic a b)     -- "rb"
+      else if kind == [114, 116] then some (.reqBearer a)     -- "rt"
+      else none
+    match op, setOpsOf r with
+    | some op, some ops => some (op :: ops)
+    | _, _ => none
+  | _ => none
+
+/-- `c20set h1|h2 ops urluser|. urlpass` → `refused` | `basic=<none|some:u:p> bearer=<none|some:t>` -/
+def laneSet : List String → String
+  | [proto, ops, uu, up] =>
+    match (decodeList ops).bind setOpsOf, decodeOpt uu, decodeHex up with
+    | some ops, some uu, some up =>
+      let url := uu.map fun u => (u, up)
+      let h2 := proto == "h2"
+      (match Req.Auth.recoveredBasic h2 ops url, Req.Auth.recoveredBearer h2 ops url with
+       | some b, some t => "basic=" ++ pairHex b ++ " bearer=" ++ optHex t
+       | _, _ => "refused")
+    | _, _, _ => "bad-op"
+  | _ => "bad-op"
+
 def lanes : List (String × (List String → String)) := [
   ("c20b64", laneB64),
   ("c20b64dec", laneB64Dec),
@@ -289,7 +366,10 @@ def lanes : List (String × (List String → String)) := [
   ("c20kind2", laneHandle2With false),
   ("c20wirebasic", laneWireBasic),
   ("c20wirebearer", laneWireBearer),
-  ("c20effective", laneEffective)
+  ("c20effective", laneEffective),
+  ("c20upload2", laneUploadWith .repaired),
+  ("c20upload", laneUploadWith .asFound),
+  ("c20set", laneSet)
 ]
 
 end Req.Driver.L.C20
